@@ -562,11 +562,21 @@ mod query {
              FROM issues
              WHERE repo = ?1
              AND issue->>'$.state.status' = ?2
+             AND issue->>'$.state.reason' IS ?3
              ORDER BY id
             ",
         )?;
+        // Nb. The reason an issue was closed for is part of its state.
+        let reason = match filter {
+            State::Closed { reason } => match serde_json::to_value(reason)? {
+                serde_json::Value::String(reason) => sql::Value::String(reason),
+                _ => sql::Value::Null,
+            },
+            State::Open => sql::Value::Null,
+        };
         stmt.bind((1, rid))?;
         stmt.bind((2, sql::Value::String(filter.to_string())))?;
+        stmt.bind((3, reason))?;
         Ok(IssuesIter {
             inner: stmt.into_iter(),
         })
